@@ -32,7 +32,7 @@ inductive Res where
   | ok (lines : List Nat) (cache : Cache)      -- indices (log numbers) of the returned records
   | raised (cache : Cache)                     -- the pending decode error was raised
   | keyError (cache : Cache)                   -- `self._log_number_offset[log_number]` missing
-deriving Repr, Inhabited
+deriving Repr, Inhabited, DecidableEq
 
 /-- The loop body of `read_logs`, line by line. `n` = log number of the head line,
 `remaining` = bytes of the snapshot not yet consumed, `pending` = `last_decode_error is not None`. -/
